@@ -75,13 +75,13 @@ theorem caseHit_of {aware : Bool} {T : Table} {st : TB} {v : Int} {cd : Kind × 
 
 /-- `H`: in an inner cell some `case` *of the current layer* matches the current value (unless
     the local aligner stops) — so the layer-aware switch finds one as well as the layer-blind -/
-theorem loop_good_gen (aware sw : Bool) {T : Table} {S : Matrix} {o : Int} {r q : List Nat} (R C : Nat)
+theorem loop_good_gen (aware cross sw : Bool) {T : Table} {S : Matrix} {o : Int} {r q : List Nat} (R C : Nat)
     (H : ∀ i j, i < R → j < C → ∀ k v, (T.at (i + 1) (j + 1)).get k = some v → ¬ (sw = true ∧ v = 0) →
-      ∃ cd ∈ cands sw S o (r.getD i 0) (q.getD j 0), cd.1 = k ∧
+      ∃ cd ∈ cands cross sw S o (r.getD i 0) (q.getD j 0), cd.1 = k ∧
         vadd ((predOf T (i + 1) (j + 1) cd.1).get cd.2.1) cd.2.2 = some v)
     (B : Int) :
     ∀ (fuel : Nat) (st : TB), Good T R C B st → st.i + st.j ≤ fuel →
-      ∃ st', tbLoop aware sw T S o r q R C fuel st = .ok st' ∧ Good T R C B st' ∧
+      ∃ st', tbLoop aware cross sw T S o r q R C fuel st = .ok st' ∧ Good T R C B st' ∧
         (st'.i = 0 ∨ st'.j = 0 ∨ (sw = true ∧ (T.at st'.i st'.j).get st'.layer = some 0)) := by
   intro fuel
   induction fuel with
@@ -107,7 +107,7 @@ theorem loop_good_gen (aware sw : Bool) {T : Table} {S : Matrix} {o : Int} {r q 
     have hy : st.j - 1 = j' := by omega
     rw [hx, hy]
     obtain ⟨cd, hmem, hcdk, hcd⟩ := H i' j' (by omega) (by omega) st.layer v (by rw [← hi', ← hj']; exact hv) hsw
-    cases hfind : (cands sw S o (r.getD i' 0) (q.getD j' 0)).find? (caseHit aware T st v) with
+    cases hfind : (cands cross sw S o (r.getD i' 0) (q.getD j' 0)).find? (caseHit aware T st v) with
     | none =>
       exfalso
       rw [List.find?_eq_none] at hfind
